@@ -141,4 +141,35 @@ example :
     st.rootSpans = [0] := by
   decide
 
+/-! ### Identity and order of handles (last sentence of C17) -/
+
+/-- Items compare equal only to themselves. -/
+theorem C17_items_equal_iff_same (a b : ItemRef) : a.beq b = true ↔ a = b := by
+  cases a; cases b; simp [ItemRef.beq]
+
+/-- Within a storage, items are ordered by capture order (the arena id). -/
+theorem C17_items_ordered_within_storage (s i j : Nat) :
+    (ItemRef.mk s i).partialCmp ⟨s, j⟩ = some (compare i j) := by
+  simp [ItemRef.partialCmp]
+
+/-- Across storages, items are unequal and unordered — at every pair of positions. -/
+theorem C17_items_unordered_across_storages (a b : ItemRef) (h : a.storage ≠ b.storage) :
+    a.beq b = false ∧ a.partialCmp b = none ∧ b.partialCmp a = none := by
+  have h' : b.storage ≠ a.storage := fun e => h e.symm
+  simp [ItemRef.beq, ItemRef.partialCmp, h, h']
+
+/-- `==` agrees with `partial_cmp` (what `PartialOrd` requires). -/
+theorem C17_items_eq_consistent_with_cmp (a b : ItemRef) :
+    a.beq b = true ↔ a.partialCmp b = some .eq := by
+  cases a with | mk s i => cases b with | mk t j =>
+  simp only [ItemRef.beq, ItemRef.partialCmp]
+  by_cases hs : s = t
+  · subst hs
+    simp
+  · simp [hs]
+
+/-- Parents come before their children in that order (with `C17_parent_before_child`). -/
+example : (ItemRef.mk 0 2).partialCmp ⟨1, 5⟩ = none ∧ (ItemRef.mk 0 2).partialCmp ⟨0, 5⟩ = some .lt ∧
+    (ItemRef.mk 0 2).beq ⟨1, 2⟩ = false := by decide
+
 end TT
